@@ -4,7 +4,7 @@ U64 = 2**64 - 1
 COUNTS = [0, 1, 2, 3, 2**32 - 1, 2**32, 2**32 + 1, 2**63 - 1, 2**63, U64 - 1, U64]
 LINES = [0, 1, 2, 3, 4, 5, 7, 10, 100, 255, 256, 65535, 65536, 2**31 - 1, 2**31, 2**32 - 1]
 NAMES = ["f", "", "2,3#origin", "7", "main", "_ZN3foo3barEv", "a,b", "op<T, U>", "café", "日本", "x y", "f\"q'", "a&b<c>",
-         "Class#method", "Outer$Inner#<init>", "\U0001f600", "long_" + "n" * 40]
+         "Class#method", "Outer$Inner#<init>", "\U0001f600", "long_" + "n" * 40, "get size", "get size ", "計算\u3000", "tab\t", " lead"]
 PATHS = ["a.c", "src/lib.rs", "dir/b.cpp", "/abs/p.c", "café/ü.c", "d,1/x y.c", "a&b/<c>.h", "com/x/Top.java",
          "deep/er/est/f.c", "z.rs"]
 
